@@ -43,6 +43,21 @@ CLAIMED = {
         note="Trusts JAX/XLA, jax.random, and that the replay model's use of the public single-step API is the specification the property names; systems <= 4 orbitals, <= 8 walkers/rank, <= 3 ranks; menu of compiled configurations is sampled, not exhaustive.",
         design_ref="DESIGN.md section 5, C08",
     ),
+    "C12": dict(
+        name="sampler_matrix",
+        technique="deterministic simulation: option-matrix cells executed through the real sampler entry points and complete driver.afqmc runs on a simulated communicator; same run repeated under different seeded schedules / eager-rendezvous patterns / clock-jump plans, on not_a_comm and in a fresh interpreter under another hash seed; replay model and estimator definition as oracles",
+        text=(
+            "Seeded exploration of the option matrix ad_mode x orbital_rotation x do_sr x walker_type x n_batch x block/step counts with a "
+            "trial converged by the library's own optimiser: (cross) plain vs each AD entry point called through jvp/vjp as the driver "
+            "does, both against a step-by-step replay model and, for a single energy block, against the weight-averaged capped real "
+            "local energy recomputed from the measured population; (batch) two batch counts; (driver) complete driver.afqmc runs on 1-3 "
+            "simulated ranks executed twice under different PRNG-chosen schedules, eager/rendezvous patterns and clock-jump plans, on "
+            "config.not_a_comm for one rank, and in a fresh interpreter with another PYTHONHASHSEED - samples_raw.dat bytes and returned "
+            "energies must be identical. Any exception from an entry point or option combination is a violation (callable clause)."
+        ),
+        note="Trusts JAX/XLA determinism on single-threaded CPU, jax.random, the replay model; cells where the library's SCF does not reach a fixed point are skipped and counted; 2rdm mode is not exercised.",
+        design_ref="DESIGN.md section 5, C12",
+    ),
 }
 
 NOT_APPLICABLE = {
@@ -62,7 +77,7 @@ NOT_APPLICABLE = {
 # properties planned as simulation targets whose check is not built yet
 PENDING = {
     k: "planned simulation target (DESIGN.md section 5); its check is not built yet, so nothing is claimed for it in this commit"
-    for k in ["C04", "C05", "C09", "C10", "C11", "C12", "C14"]
+    for k in ["C04", "C05", "C09", "C10", "C11", "C14"]
 }
 
 
